@@ -306,6 +306,10 @@ SPEC["C01"] = {
          "later positions of a test list (after any number of complete tests of the grammar): a missing comma, a comma before ')', an unknown name or an action after a comma -- rejected at that token"),
         ("C01_test_list_later_examples", "RejectExamples.ex_missing_comma_in_test_list",
          "non-vacuity: `if anyof (true true)` (with ex_unknown_after_comma, ex_comma_before_paren)"),
+        ("C01_malformed_string_list_in_test_rejected", "RejectFacts.malformed_string_list_in_test_rejected",
+         "malformed string lists (empty, missing comma, trailing comma, not closed) in the arguments of a test that still needs arguments"),
+        ("C01_malformed_list_in_test_example", "RejectExamples.ex_malformed_list_in_test",
+         "non-vacuity: `if header [\"a\" \"b\"] \"x\" { }` rejected at the second string"),
         ("C01_test_argument_rejected", "RejectFacts.test_argument_rejected",
          "in the arguments of a test that still needs arguments: a tag it does not take, a tag whose extension is not loaded, a value of the wrong type -- rejected at that token"),
         ("C01_test_argument_examples", "RejectExamples.ex_unknown_tag_in_test",
@@ -315,7 +319,7 @@ SPEC["C01"] = {
         ("C01_misplaced_else_example", "RejectExamples.ex_misplaced_else",
          "non-vacuity: `stop; else { stop; } keep;` rejected with 'must follow' at the closing brace, from the theorem"),
         ("C01_reject_examples", "RejectExamples.ex_unknown",
-         "non-vacuity on the generated tables (one of twenty-eight examples in sieve/RejectExamples.v: prefix `require [\"fileinto\"]; if size :over 100K {`)"),
+         "non-vacuity on the generated tables (one of twenty-nine examples in sieve/RejectExamples.v: prefix `require [\"fileinto\"]; if size :over 100K {`)"),
         ("C01_accept_final_state", "GateFacts.parse_accept_reachable",
          "an accepted script ends with an empty command stack, balanced brackets and nothing expected"),
         ("raw", """(* which commands of the current tables the interpreter theorem covers (re-checked on every run) *)
